@@ -81,19 +81,23 @@ Proof.
   exact (conj impl_inflated_labels_panics (conj impl_zero_dim_panics (conj impl_blocks_recovered impl_elements_recovered))).
 Qed.
 
-(* a sub-block index outside the label table, missing packed values: accepted, and the
+(* a sub-block index outside the label table, missing packed values, more labels in a sub-block
+   than it has voxels, a block without voxels: accepted, and the
    background traversal panics: the process dies.  A packed value beyond the sub-block's label
    count passes even the repaired UnmarshalBinary and makes a point lookup panic: Validate. *)
 Theorem C20_accepted_is_safe_refuted :
   (exists b, parse_block_impl w_index_outside = Ok b /\ view_volume b = Panic) /\
   (exists b, parse_block_impl w_no_values = Ok b /\ view_volume b = Panic) /\
+  (exists b, parse_block_impl w_many_labels = Ok b /\ view_calc b = Panic) /\
+  (exists b, parse_block_impl w_zero_dim_solid = Ok b /\ view_volume b = Panic /\ view_calc b = Ok tt) /\
   (exists b, parse_block_impl w_packed_value = Ok b /\ parse_block_fixed w_packed_value = Ok b /\
              view_volume b = Ok tt /\ view_point b 1 0 = Panic /\ validate b = Err) /\
   snd (handle id_gunzip false (RBlocks (one_frame w_index_outside)) []) = Crashed /\
   view_svsizes false {| pi_label := 21; pi_blocks := [(0, [])] |} = Panic.
 Proof.
-  exact (conj impl_index_outside_accepted (conj impl_no_values_accepted (conj packed_value_needs_validate
-        (conj impl_blocks_crash impl_svsizes_panics)))).
+  exact (conj impl_index_outside_accepted (conj impl_no_values_accepted (conj impl_many_labels_accepted
+        (conj impl_zero_dim_solid_accepted (conj packed_value_needs_validate
+        (conj impl_blocks_crash impl_svsizes_panics)))))).
 Qed.
 
 (* handleIndex / handleMappings report a decode error and carry on; PutSpans deletes the stored
@@ -124,7 +128,8 @@ Proof. exact (conj impl_frame_alloc_unbounded impl_rles_alloc_unbounded). Qed.
 Example C20_witnesses_rejected_after_repair :
   ingest_block true w_inflated_labels = Err /\ ingest_block true w_zero_dim = Err /\
   ingest_block true w_index_outside = Err /\ ingest_block true w_no_values = Err /\
-  ingest_block true w_packed_value = Err.
+  ingest_block true w_packed_value = Err /\ ingest_block true w_many_labels = Err /\
+  ingest_block true w_zero_dim_solid = Err.
 Proof. exact fixed_rejects_witnesses. Qed.
 Example C20_valid_block_accepted :
   (* 2x1x1 sub-blocks, labels {5,6}: left sub-block has both (1 bit per voxel), right is solid 6 *)
